@@ -25,7 +25,9 @@ PROPS = ("C12", "C13", "C20")
 _counter = [0]
 
 MD_RATES = [(1, 1), (10, 1), (100, 1), (200, 3), (10**6, 3), (10**8, 7), (1, 3), (3, 7), (123457, 1000),
-            (44100, 1), (1, 10), (999, 1000), (1001, 1000), (30, 1001), (10**6, 1)]
+            (44100, 1), (1, 10), (999, 1000), (1001, 1000), (30, 1001), (10**6, 1),
+            # numerators beyond 2**32 ("all rational rates"): index * denominator approaches / exceeds 2**64
+            (12 * 10**9, 1001), (36 * 10**9, 1001), (2**32 - 1, 1)]
 
 
 # --------------------------------------------------------------------------------------
@@ -123,6 +125,8 @@ def gen_plan(prop, tier, rng, i):
         base = rng.randrange(0, 120)
     else:
         base = (rng.randrange(315532800, 4102444800) * n) // d
+        while base >= 2**62:
+            base //= 4  # (sample indices are below 2**63 throughout the format)
         if rng.random() < 0.5:
             T = cfg.file_T(base) + cfg.file_s
             base = max(0, cfg.first_of(T) + rng.choice([-2, -1, -1, 0]))
